@@ -29,7 +29,7 @@ def overlay_of(patch):
 
 def main():
     prop = sys.argv[1].upper()
-    dirs = sys.argv[2:] or sorted(glob.glob(os.path.join(VERIF, 'refactorings', '*')) + glob.glob(os.path.join(VERIF, 'refactorings2', '*')) + glob.glob(os.path.join(VERIF, 'refactorings3', '*')) + glob.glob(os.path.join(VERIF, 'refactorings4', '*')) + glob.glob(os.path.join(VERIF, 'refactorings5', '*')) + glob.glob(os.path.join(VERIF, 'refactorings6', '*')))
+    dirs = sys.argv[2:] or sorted(d for d in glob.glob(os.path.join(VERIF, 'refactorings*', '*')) if os.path.isdir(d))
     base = run_check(prop, '/repo', 'quick', 0)
     bk = {f.key() for f in base.findings()}
     rc = 0; n = fa = und = 0
